@@ -41,6 +41,23 @@ def grid(lo, hi, lim=None):
     return sorted(v for v in g if lo <= v <= hi and (lim is None or v <= lim))
 
 
+def _tlc(module, **kw):
+    """core.tlc, with an optional development cache of the published records (C14_TLC_CACHE=<dir>)."""
+    cdir = os.environ.get("C14_TLC_CACHE")
+    path = cdir and os.path.join(cdir, kw["cfg"] + ".json")
+    if path and os.path.exists(path):
+        r = core.TLCResult()
+        r.__dict__.update(json.load(open(path)))
+        r.coverage = {k: tuple(v) for k, v in r.coverage.items()}
+        return r
+    r = core.tlc(module, **kw)
+    if path and r.ok:
+        os.makedirs(cdir, exist_ok=True)
+        with open(path, "w") as f:
+            json.dump({k: v for k, v in r.__dict__.items() if k != "out"}, f)
+    return r
+
+
 def obs_class(want, got):
     if isinstance(got, str):
         if got.startswith("CRASH") or got == "TIMEOUT":
@@ -299,10 +316,10 @@ def run(tier, seed):
     futs = {}
     for cfg in range_cfgs:
         # Walk() recurses once per loop iteration (up to 256 deep for the 8-bit types): larger thread stacks
-        futs[cfg] = ex.submit(core.tlc, "RangeLoop", cfg=cfg, workers=nw, timeout=2400 if thorough else 900, deadlock=False,
+        futs[cfg] = ex.submit(_tlc, "RangeLoop", cfg=cfg, workers=nw, timeout=2400 if thorough else 900, deadlock=False,
                               env={"JAVA_TOOL_OPTIONS": "-Xss64m"})
         time.sleep(0.3)
-    futs[iter_cfg] = ex.submit(core.tlc, "IterMutation", cfg=iter_cfg, workers=nw, timeout=2400 if thorough else 900,
+    futs[iter_cfg] = ex.submit(_tlc, "IterMutation", cfg=iter_cfg, workers=nw, timeout=2400 if thorough else 900,
                                deadlock=False, coverage=True)
     fb = ex.submit(core.build_many, build_specs())
     tl = {}
@@ -428,6 +445,10 @@ def run(tier, seed):
                 "non-trivial = distinct call that visits something or must raise",
         "samples": samples[:6],
     })
+    if os.environ.get("C14_DUMP"):
+        with open(os.environ["C14_DUMP"], "w") as f:
+            for d, detail in rep.violations:
+                f.write(json.dumps([d, detail]) + "\n")
     rc = rep.finish()
     cov["known_findings"] = rep.kf_summary()
     core.write_evidence(PROP, tier, seed, "model_checking", cov, time.time() - t0,
